@@ -5,7 +5,7 @@
 set -u
 cmd=$1; shift
 if [ "$cmd" = verify ]; then
-  P=$1; I=$2; PKG=${3:-ipp}; EXTRA=${4:-}; WT=/tmp/wt/$P; OUT=/tmp/wt/out-$P/$I
+  P=$1; I=$2; PKG=${3:-ipp}; EXTRA=${4:-}; WT=${WTROOT:-/tmp/wt}/$P; OUT=${WTROOT:-/tmp/wt}/out-$P/$I
   TD=ipp/tests; [ "$PKG" = ipp-util ] && TD=util/tests
   cd $WT || exit 2
   git checkout -q -- . ; rm -rf ipp/tests util/tests
@@ -13,15 +13,15 @@ if [ "$cmd" = verify ]; then
   [ -f $OUT/demo_cargo.diff ] && git apply $OUT/demo_cargo.diff
   mkdir -p $TD; cp $demo $TD/
   echo "== HEAD + demo (must pass)"
-  if cargo test --offline -p $PKG $EXTRA --test $name >/tmp/wt/verify_${P}_${I}.head.log 2>&1; then echo "  demo passes on HEAD"; else echo "  DEMO FAILS ON HEAD"; tail -5 /tmp/wt/verify_${P}_${I}.head.log; exit 1; fi
+  if cargo test --offline -p $PKG $EXTRA --test $name >${WTROOT:-/tmp/wt}/verify_${P}_${I}.head.log 2>&1; then echo "  demo passes on HEAD"; else echo "  DEMO FAILS ON HEAD"; tail -5 ${WTROOT:-/tmp/wt}/verify_${P}_${I}.head.log; exit 1; fi
   rm -rf ipp/tests util/tests; git checkout -q -- .
   git apply $OUT/patch.diff || { echo "  PATCH DOES NOT APPLY"; exit 1; }
   echo "== patch: build + suite (must pass)"
-  if cargo test --workspace --offline >/tmp/wt/verify_${P}_${I}.suite.log 2>&1; then echo "  suite passes with patch: $(grep -c 'test result: ok' /tmp/wt/verify_${P}_${I}.suite.log) ok blocks, $(grep -E '^test result' /tmp/wt/verify_${P}_${I}.suite.log | head -1)"; else echo "  SUITE FAILS WITH PATCH"; grep -E "FAILED|error" /tmp/wt/verify_${P}_${I}.suite.log | head; git checkout -q -- .; exit 1; fi
+  if cargo test --workspace --offline >${WTROOT:-/tmp/wt}/verify_${P}_${I}.suite.log 2>&1; then echo "  suite passes with patch: $(grep -c 'test result: ok' ${WTROOT:-/tmp/wt}/verify_${P}_${I}.suite.log) ok blocks, $(grep -E '^test result' ${WTROOT:-/tmp/wt}/verify_${P}_${I}.suite.log | head -1)"; else echo "  SUITE FAILS WITH PATCH"; grep -E "FAILED|error" ${WTROOT:-/tmp/wt}/verify_${P}_${I}.suite.log | head; git checkout -q -- .; exit 1; fi
   [ -f $OUT/demo_cargo.diff ] && git apply $OUT/demo_cargo.diff
   mkdir -p $TD; cp $demo $TD/
   echo "== patch + demo (must fail)"
-  if cargo test --offline -p $PKG $EXTRA --test $name >/tmp/wt/verify_${P}_${I}.patch.log 2>&1; then echo "  DEMO PASSES WITH PATCH"; git checkout -q -- .; rm -rf ipp/tests util/tests; exit 1; else echo "  demo fails with patch: $(grep -E '^test result' /tmp/wt/verify_${P}_${I}.patch.log | head -1)"; fi
+  if cargo test --offline -p $PKG $EXTRA --test $name >${WTROOT:-/tmp/wt}/verify_${P}_${I}.patch.log 2>&1; then echo "  DEMO PASSES WITH PATCH"; git checkout -q -- .; rm -rf ipp/tests util/tests; exit 1; else echo "  demo fails with patch: $(grep -E '^test result' ${WTROOT:-/tmp/wt}/verify_${P}_${I}.patch.log | head -1)"; fi
   git checkout -q -- . ; rm -rf ipp/tests util/tests
   D=/verif/seeded/$P-$I; mkdir -p $D; cp $OUT/patch.diff $demo $D/; [ -f $OUT/demo_cargo.diff ] && cp $OUT/demo_cargo.diff $D/; cp $OUT/NOTES.md $D/NOTES.md 2>/dev/null
   echo "  stored in $D"
